@@ -73,7 +73,7 @@ def params_reach(t, st, acc=None, seen=None):
 NORMAL_FORMS = (('ipr::impl::type_factory::get_qualified(', 1,
                  'a qualified operand is flattened: the node is keyed on its main variant and the union of the sets (C11.merge)'),)
 
-INJECTIVE_CALLS = ('characters', 'rep', 'intern', 'begin', 'end', 'cbegin', 'cend', 'operand', 'get', 'basic_string_view', 'data',
+INJECTIVE_CALLS = ('characters', 'rep', 'intern', 'begin', 'end', 'cbegin', 'cend', 'get', 'basic_string_view', 'data',
                    'length', 'size')
 
 
